@@ -26,6 +26,10 @@ Query:
 import re
 
 AGG_FUNCS = ['COUNT', 'MIN', 'MAX', 'SUM', 'AVG', 'VARIANCE', 'MEDIAN', 'ARRAY_AGG', 'ANY_VALUE']
+# user functions available to generated queries (defined identically in both init codes); the reference knows what they return
+INIT_PY = "def f(*a):\n    return 'F' + str(len(a))\ndef g(*a):\n    return ['G', len(a)]\n"
+INIT_JS = "function f(...a) { return 'F' + String(a.length); }\nfunction g(...a) { return ['G', a.length]; }\n"
+
 JOIN_TYPES = ['JOIN', 'INNER JOIN', 'LEFT JOIN', 'LEFT OUTER JOIN', 'STRICT LEFT JOIN']
 
 PY_KEYWORDS = set('False None True and as assert async await break class continue def del elif else except finally for from global if import in is lambda nonlocal not or pass raise return try while with yield'.split())
@@ -126,6 +130,12 @@ def render_expr(e, ctx, lang):
         return '%s.split(%s)' % (R(e[1]), lit(e[2]))
     if t == 'tostr':
         return 'str(%s)' % R(e[1]) if lang == 'py' else 'String(%s)' % R(e[1])
+    if t == 'call':
+        return '%s(%s)' % (e[1], ', '.join(R(x) for x in e[2]))
+    if t == 'index':
+        return '%s[%d]' % (R(e[1]), e[2])
+    if t == 'paren':
+        return '(%s)' % R(e[1])
     if lang == 'py':
         if t == 'int_of':
             return 'int(%s)' % R(e[1])
